@@ -171,7 +171,9 @@ def main(ctx):
     ctx.cov["rule"] = ("seeded random and PCT schedules of the real object code under the deterministic "
                        "scheduler: lock kinds x threads 2..4 x rounds 1..3, call_once with 2..5 callers, "
                        "ref_cnt with random retain/release programs; every schedule is replayed on the Lean "
-                       "model and the traces compared event for event; distinct = distinct implementation traces")
+                       "model and the traces compared event for event; plus ALL schedules of the real code up to a "
+                       "preemption bound (CHESS-style) on the small configurations (coverage.systematic; exhaustive "
+                       "refers to that bounded space); distinct = distinct implementation traces")
     ctx.lean_obligations("drv_c04", PROOFS, GREP, leanchecker=["MgProof.C04.Props"])
     if not getattr(ctx, "driver_ok", False):
         return
@@ -184,6 +186,34 @@ def main(ctx):
         return
     runs = gen_runs(ctx, sync_kind)
     vlib.conc_correspondence(ctx, hcmd, dcmd, runs, judge=judge, signature_of=signature_of)
+    # systematic part: every schedule of the real code up to a preemption bound on the small
+    # configurations; each one is judged and replayed on the model like the random ones
+    b = 2 if ctx.quick else 3
+    sk = "synclock" if sync_kind == "strong" else "synclock-weak"
+    small = [("conf spinlock 2 1", "lock", dict(n=2, r=1), b), ("conf spinlock 2 2", "lock", dict(n=2, r=2), b),
+             ("conf %s 2 1" % sk, "lock", dict(n=2, r=1), b), ("conf %s 2 2" % sk, "lock", dict(n=2, r=2), b),
+             ("conf mutex 2 2", "lock", dict(n=2, r=2), b), ("conf spinlock 3 1", "lock", dict(n=3, r=1), b - 1),
+             ("conf %s 3 1" % sk, "lock", dict(n=3, r=1), b - 1),
+             ("conf once 2", "once", dict(n=2), b + 1), ("conf once 3", "once", dict(n=3), b),
+             ("conf refcnt 1 rd d", "refcnt", dict(init=1, progs=["rd", "d"]), b + 1),
+             ("conf refcnt 1 d d", "refcnt", dict(init=1, progs=["d", "d"]), b + 1),
+             ("conf refcnt 2 dd rd", "refcnt", dict(init=2, progs=["dd", "rd"]), b),
+             ("conf refcnt 1 r d d", "refcnt", dict(init=1, progs=["r", "d", "d"]), b)]
+    sys_runs = []
+    exh = {}
+    for conf, kind, extra, bound in small:
+        g = vlib.explore_schedules(hcmd, [conf], bound, max_runs=6000 if ctx.quick else 200000)
+        n = 0
+        for sched, out in g:
+            n += 1
+            r = {"conf": [conf], "sched": "replay " + " ".join(sched), "kind": kind}
+            r.update(extra)
+            sys_runs.append(r)
+        exh[conf] = {"preemption_bound": bound, "schedules": n, "exhausted": g.exhausted}
+    ctx.cov["systematic"] = exh
+    ctx.cov["exhaustive"] = all(v["exhausted"] for v in exh.values())
+    vlib.conc_correspondence(ctx, hcmd, dcmd, sys_runs, judge=judge, signature_of=signature_of,
+                             label="tieC_systematic")
 
 
 def replay(ctx, path):
